@@ -842,6 +842,10 @@ func mutatingRRWMethodsUsedByExecutor(c *Ctx) []string {
 func checkSchemaApply(c *Ctx) {
 	c.Rule("R13e", ruleTextSetRevisionAll, 2)
 	checkSetRevisionAll(c, "R13e")
+	c.Rule("R13g", ruleTextFKReenabled, 2)
+	checkFKReenabled(c, "R13g")
+	c.Rule("R13h", ruleTextViolationIdentity, 1)
+	checkViolationIdentity(c, "R13h")
 	c.Rule("R13f", ruleTextApplyOwner, 1)
 	checkApplyOwner(c, "R13f")
 	fi := c.Func("R13c", pCmdapi, "", "applyChanges")
